@@ -52,8 +52,8 @@ var knownClasses = map[string]bool{
 	// before reading. The same classes are registered in known_findings.json with
 	// "continue": true; listing them here only makes VERIF_BYTES_LENIENT=1 behave
 	// the same on a tree or findings file where they are not.
-	"C12/reencode/truncated-byte-string-zero-filled":            true,
-	"C12/alloc/alloc-byte-string-declared-length-preallocated":  true,
+	"C12/reencode/truncated-byte-string-zero-filled":             true,
+	"C12/alloc/alloc-byte-string-declared-length-preallocated":   true,
 	"C33/alloc/alloc-byte-string-declared-length-preallocated:*": true,
 	"C07/alloc/alloc-byte-string-declared-length-preallocated:*": true,
 }
